@@ -19,8 +19,8 @@ OPTION = "std::option::Option"
 RESULT = "std::result::Result"
 
 ADAPTORS = {"map": "map", "filter": "filter", "filter_map": "filter_map", "enumerate": "enumerate", "cloned": "id", "copied": "id",
-            "inspect": None}
-TERMINALS = {"collect", "for_each", "position", "any", "all", "find", "find_map"}
+            "flatten": "flatten", "inspect": None}
+TERMINALS = {"collect", "for_each", "position", "any", "all", "find", "find_map", "fold"}
 SOURCE_TAILS = ("::iter", "::iter_mut", "::into_iter", "::keys", "::values", "::values_mut", "::chars", "::lines", "::drain", "::split",
                 "::bytes", "::char_indices", "::rev", "::skip", "::take", "::zip", "::chain", "::peekable", "::into_values", "::into_keys",
                 "::split_whitespace", "::windows", "::chunks")
@@ -244,7 +244,8 @@ def is_iter_method(t, meth):
 
 VALUE_COMBINATORS = {
     ("Option", "map"), ("Option", "and_then"), ("Option", "unwrap_or_else"), ("Option", "ok_or_else"), ("Option", "map_or_else"),
-    ("Option", "filter"), ("Option", "is_some_and"), ("Option", "or_else"),
+    ("Option", "filter"), ("Option", "is_some_and"), ("Option", "or_else"), ("Option", "unwrap_or_default"), ("Result", "unwrap_or_default"),
+    ("Option", "map_or"), ("Result", "map_or"),
     ("Result", "map"), ("Result", "map_err"), ("Result", "and_then"), ("Result", "unwrap_or_else"), ("Result", "or_else"),
 }
 
@@ -268,9 +269,11 @@ def expand_value(bld, defs, bid, fam, meth):
     if target is None or dst.get("p"):
         raise Giveup("no continuation")
     fop = args[-1]
-    if fn_item_path(fop) is None and closure_of(bld.rec, defs, fop) is None:
+    if meth == "unwrap_or_default":
+        fop = None
+    elif fn_item_path(fop) is None and closure_of(bld.rec, defs, fop) is None:
         raise Giveup("not a closure / fn item")
-    if fn_item_path(fop) is not None:
+    elif fn_item_path(fop) is not None:
         raise Giveup("function items stay calls")     # rules match `x.map(Type::method)` as a call
     recv = bld.local(bld.ty(plain(args[0])) if plain(args[0]) is not None else "_")
     pre = [assign(recv, use(args[0]), ln)]
@@ -306,6 +309,12 @@ def expand_value(bld, defs, bid, fam, meth):
         else:
             e = bld.local("_")
             neg_b = done([assign(e, arm_value(*neg), ln), assign(dst, variant_agg(RESULT, "Err", 1, [mv(e)]), ln)])
+    elif meth == "unwrap_or_default":
+        # Some(x) / Ok(x) -> x, otherwise T::default()  (an empty Vec for Vec<_>, which is what `Vec::new()` is)
+        pos_b = done([assign(dst, arm_value(*pos), ln)])
+        dty = bld.ty(dst["l"]) or ""
+        ctor = "std::vec::Vec::<T>::new" if dty.startswith("std::vec::Vec<") else "std::default::Default::default"
+        neg_b = bld.block([], call_term(ctor, [], dst, done([]), ln))
     elif (fam, meth) == ("Option", "unwrap_or_else"):
         pos_b = done([assign(dst, arm_value(*pos), ln)])
         neg_b = emit_call(bld, defs, fop, [], dst, ln, done([]))
@@ -329,6 +338,11 @@ def expand_value(bld, defs, bid, fam, meth):
         fin = done([assign(dst, variant_agg(RESULT, "Err", 1, [mv(y)]), ln)])
         body = emit_call(bld, defs, fop, [mv(x)], {"l": y}, ln, fin)
         neg_b = bld.block([assign(x, arm_value(*neg), ln)], goto(body, ln))
+    elif meth == "map_or":
+        # map_or(default, f): the default is an already evaluated value
+        body = emit_call(bld, defs, fop, [mv(x)], dst, ln, done([]))
+        pos_b = bld.block([assign(x, arm_value(*pos), ln)], goto(body, ln))
+        neg_b = done([assign(dst, use(args[1]), ln)])
     elif (fam, meth) == ("Option", "map_or_else"):
         # map_or_else(default_fn, f)
         dfop = args[1]
@@ -355,6 +369,223 @@ def expand_value(bld, defs, bid, fam, meth):
     cb.setdefault("stmts", []).extend(pre + st)
     cb["term"] = sw
     cb["expanded"] = "%s::%s" % (fam, meth)
+
+
+# ------------------------------------------------------------------------------------------------ Option: plain-value methods
+
+def option_plain(t, rec, defs):
+    """Option methods taking values, not closures: ok_or(v), cloned(), copied(), and `a == Some(v)` / `a == None`"""
+    n = t.get("callee") or ""
+    m = re.match(r"^std::option::Option::<(&?)T>::(ok_or|cloned|copied|unwrap_or)$", n)
+    if m:
+        if (m.group(2) in ("cloned", "copied")) != (m.group(1) == "&"):
+            return None
+        return m.group(2)
+    r = t.get("resolved") or ""
+    if n in ("std::cmp::PartialEq::eq", "std::cmp::PartialEq::ne") and r.startswith("<std::option::Option<T> as std::cmp::PartialEq>::") \
+            and len(t.get("args", [])) == 2 and _literal_option_side(rec, defs, t) is not None:
+        return "eq" if n.endswith("::eq") else "ne"
+    return None
+
+
+def _ref_target(rec, defs, op):
+    """the local `x` when op moves a temporary whose one definition is `&x`"""
+    l = plain(op)
+    if l is None:
+        return None
+    ds = [d for d in defs.get(l, [])]
+    if len(ds) != 1 or ds[0][2] != "assign":
+        return None
+    rv = rec["blocks"][ds[0][0]]["stmts"][ds[0][1]]["rv"]
+    if rv.get("k") == "ref" and not rv["place"].get("p"):
+        return rv["place"]["l"]
+    return None
+
+
+def _literal_option_side(rec, defs, t):
+    """(index of the literal side, variant, payload operand | None): which argument of `a == b` is `&Some(v)` / `&None`
+    built right here"""
+    for i in (1, 0):
+        x = _ref_target(rec, defs, t["args"][i])
+        if x is None:
+            continue
+        ds = [d for d in defs.get(x, [])]
+        if len(ds) != 1 or ds[0][2] != "assign":
+            continue
+        rv = rec["blocks"][ds[0][0]]["stmts"][ds[0][1]]["rv"]
+        if rv.get("k") == "agg" and rv.get("adt") == OPTION:
+            return i, rv["variant"], (rv["ops"][0] if rv["ops"] else None)
+    return None
+
+
+def expand_option_plain(bld, defs, bid, meth):
+    blocks = bld.blocks
+    t = blocks[bid]["term"]
+    ln = t.get("ln")
+    args, dst, target = t["args"], t["dst"], t.get("target")
+    if target is None or dst.get("p"):
+        raise Giveup("no continuation")
+    done = lambda stmts: bld.block(stmts, goto(target, ln))
+    cb = blocks[bid]
+    if meth in ("eq", "ne"):
+        side, variant, pay = _literal_option_side(bld.rec, defs, t)
+        other = _ref_target(bld.rec, defs, args[1 - side])
+        if other is None:
+            raise Giveup("compared value is not a plain local")
+        yes, no = (True, False) if meth == "eq" else (False, True)
+        if variant == "None":
+            some_b = done([assign(dst, use(konst("bool", no)), ln)])
+            none_b = done([assign(dst, use(konst("bool", yes)), ln)])
+        else:
+            x = bld.local("_")
+            rx = bld.local("&_")
+            rv_ = bld.local("&_")
+            v = bld.local("_")
+            r = bld.local("bool")
+            fin = done([assign(dst, use(mv(r)) if meth == "eq" else {"k": "un", "op": "Not", "a": mv(r)}, ln)])
+            cmp_b = bld.block([assign(x, use({"copy": payload(other, OPTION, "Some", 1)}), ln), assign(v, use(pay), ln),
+                               assign(rx, {"k": "ref", "bk": "shared", "place": {"l": x}}, ln), assign(rv_, {"k": "ref", "bk": "shared", "place": {"l": v}}, ln)],
+                              call_term("std::cmp::PartialEq::eq", [mv(rx), mv(rv_)], {"l": r}, fin, ln))
+            some_b = cmp_b
+            none_b = done([assign(dst, use(konst("bool", no)), ln)])
+        st, sw = discr_switch(bld, other, OPTION, {1: some_b, 0: none_b}, ln)
+        cb.setdefault("stmts", []).extend(st)
+        cb["term"] = sw
+        cb["expanded"] = "Option::" + meth
+        return
+    recv = bld.local(bld.ty(plain(args[0])) if plain(args[0]) is not None else "_")
+    pre = [assign(recv, use(args[0]), ln)]
+    x = bld.local("_")
+    some_val = use({"move": payload(recv, OPTION, "Some", 1)})
+    if meth == "ok_or":
+        some_b = done([assign(x, some_val, ln), assign(dst, variant_agg(RESULT, "Ok", 0, [mv(x)]), ln)])
+        none_b = done([assign(dst, variant_agg(RESULT, "Err", 1, [args[1]]), ln)])
+    elif meth == "unwrap_or":
+        some_b = done([assign(dst, some_val, ln)])
+        none_b = done([assign(dst, use(args[1]), ln)])
+    elif meth == "copied":
+        some_b = done([assign(x, use({"copy": {"l": recv, "p": [{"downcast": "Some", "vi": 1}, {"f": "0", "i": 0, "adt": OPTION}, "deref"]}}), ln),
+                       assign(dst, variant_agg(OPTION, "Some", 1, [mv(x)]), ln)])
+        none_b = done([assign(dst, variant_agg(OPTION, "None", 0, []), ln)])
+    elif meth == "cloned":
+        y = bld.local("_")
+        fin = done([assign(dst, variant_agg(OPTION, "Some", 1, [mv(y)]), ln)])
+        some_b = bld.block([assign(x, some_val, ln)], call_term("std::clone::Clone::clone", [mv(x)], {"l": y}, fin, ln))
+        none_b = done([assign(dst, variant_agg(OPTION, "None", 0, []), ln)])
+    else:
+        raise Giveup("unhandled")
+    st, sw = discr_switch(bld, recv, OPTION, {1: some_b, 0: none_b}, ln)
+    cb.setdefault("stmts", []).extend(pre + st)
+    cb["term"] = sw
+    cb["expanded"] = "Option::" + meth
+
+
+# ------------------------------------------------------------------------------------------------ bool::then / then_some
+
+def bool_then(t):
+    n = t.get("resolved") or t.get("callee") or ""
+    m = re.match(r"^core::bool::<impl bool>::(then_some|then)$", n)
+    return m.group(1) if m else None
+
+
+def expand_bool_then(bld, defs, bid, meth):
+    """`c.then_some(v)` / `c.then(f)` by definition: if c { Some(v) } else { None }  (v resp. f() evaluated as the source does)"""
+    blocks = bld.blocks
+    t = blocks[bid]["term"]
+    ln = t.get("ln")
+    args, dst, target = t["args"], t["dst"], t.get("target")
+    if target is None or dst.get("p") or len(args) != 2:
+        raise Giveup("no continuation")
+    c = bld.local("bool")
+    none_b = bld.block([assign(dst, variant_agg(OPTION, "None", 0, []), ln)], goto(target, ln))
+    if meth == "then_some":
+        some_b = bld.block([assign(dst, variant_agg(OPTION, "Some", 1, [args[1]]), ln)], goto(target, ln))
+    else:
+        if fn_item_path(args[1]) is not None or closure_of(bld.rec, defs, args[1]) is None:
+            raise Giveup("not a closure")
+        y = bld.local("_")
+        fin = bld.block([assign(dst, variant_agg(OPTION, "Some", 1, [mv(y)]), ln)], goto(target, ln))
+        some_b = emit_call(bld, defs, args[1], [], {"l": y}, ln, fin)
+    cb = blocks[bid]
+    cb.setdefault("stmts", []).append(assign(c, use(args[0]), ln))
+    cb["term"] = bool_switch(mv(c), some_b, none_b, ln)
+    cb["expanded"] = "bool::" + meth
+
+
+# ------------------------------------------------------------------------------------------------ slice splitting
+
+SLICE_SPLITS = {"core::slice::<impl [T]>::split_last": "last", "core::slice::<impl [T]>::split_first": "first",
+                "core::slice::<impl [T]>::first": "first_elem", "core::slice::<impl [T]>::last": "last_elem"}
+
+
+def slice_split(t):
+    return SLICE_SPLITS.get(t.get("resolved") or t.get("callee") or "")
+
+
+def expand_slice_split(bld, bid, which):
+    """`s.split_last()` / `s.split_first()` by definition:
+         if s.is_empty() { None } else { Some((&s[len - 1], &s[0 .. len - 1])) }        (last)
+         if s.is_empty() { None } else { Some((&s[0], &s[1 .. len])) }                  (first)
+       and `s.first()` / `s.last()`:
+         if s.is_empty() { None } else { Some(&s[0]) }     resp.   Some(&s[len - 1])
+    so that "peel one label and recurse / loop on the rest" has one shape whichever way it is written."""
+    blocks = bld.blocks
+    t = blocks[bid]["term"]
+    ln = t.get("ln")
+    args, dst, target = t["args"], t["dst"], t.get("target")
+    if target is None or dst.get("p") or len(args) != 1 or plain(args[0]) is None:
+        raise Giveup("no continuation")
+    sty = bld.ty(plain(args[0]))
+    m = re.match(r"^&(?:'\w+ )?\[(.+)\]$", sty or "")
+    if not m:
+        raise Giveup("receiver is not a shared slice")
+    elem = m.group(1)
+    gen = t.get("generics") or [elem]
+    s = bld.local(sty)
+    e = bld.local("bool")
+    n = bld.local("usize")
+    pos = bld.local("usize")
+    one = bld.local("&" + elem)
+    rng = bld.local("std::ops::Range<usize>")
+    rest = bld.local(sty)
+    tup = bld.local("(&%s, %s)" % (elem, sty))
+
+    def slice_call(meth, cargs, cdst, ctarget):
+        name = "core::slice::<impl [T]>::" + meth
+        ct = call_term(name, cargs, cdst, ctarget, ln)
+        ct["inst"] = ct["resolved_inst"] = "core::slice::<impl [%s]>::%s" % (elem, meth)
+        ct["generics"] = list(gen)
+        return ct
+
+    elem_ref = {"k": "ref", "bk": "shared", "place": {"l": s, "p": ["deref", {"index": pos}]}}
+    rng_agg = lambda a, b: {"k": "agg", "ak": "adt", "adt": "std::ops::Range", "variant": "Range", "vi": 0, "fields": ["start", "end"], "ops": [a, b]}
+    if which in ("first_elem", "last_elem"):
+        one_b = bld.block([assign(one, elem_ref, ln), assign(dst, variant_agg(OPTION, "Some", 1, [mv(one)]), ln)], goto(target, ln))
+        if which == "first_elem":
+            len_b = bld.block([assign(pos, use(konst("usize", 0)), ln)], goto(one_b, ln))
+        else:
+            sub_b = bld.block([assign(pos, {"k": "bin", "op": "Sub", "a": cp(n), "b": konst("usize", 1)}, ln)], goto(one_b, ln))
+            len_b = bld.block([], slice_call("len", [cp(s)], {"l": n}, sub_b))
+    else:
+        fin = bld.block([assign(tup, {"k": "agg", "ak": "tuple", "ops": [mv(one), mv(rest)]}, ln),
+                         assign(dst, variant_agg(OPTION, "Some", 1, [mv(tup)]), ln)], goto(target, ln))
+        idx = {"k": "call", "callee": "std::ops::Index::index", "inst": "<[%s] as std::ops::Index<std::ops::Range<usize>>>::index" % elem,
+               "generics": ["[%s]" % elem, "std::ops::Range<usize>"], "resolved": "core::slice::index::<impl std::ops::Index<I> for [T]>::index",
+               "resolved_inst": "core::slice::index::<impl std::ops::Index<std::ops::Range<usize>> for [%s]>::index" % elem,
+               "resolved_local": False, "callee_local": False, "args": [cp(s), mv(rng)], "dst": {"l": rest}, "target": fin, "ln": ln, "syn": True}
+        if which == "last":
+            body = [assign(pos, {"k": "bin", "op": "Sub", "a": cp(n), "b": konst("usize", 1)}, ln), assign(one, elem_ref, ln),
+                    assign(rng, rng_agg(konst("usize", 0), cp(pos)), ln)]
+        else:
+            body = [assign(pos, use(konst("usize", 0)), ln), assign(one, elem_ref, ln), assign(rng, rng_agg(konst("usize", 1), cp(n)), ln)]
+        some_b = bld.block(body, idx)
+        len_b = bld.block([], slice_call("len", [cp(s)], {"l": n}, some_b))
+    none_b = bld.block([assign(dst, variant_agg(OPTION, "None", 0, []), ln)], goto(target, ln))
+    test_b = bld.block([], bool_switch(mv(e), none_b, len_b, ln))
+    cb = blocks[bid]
+    cb.setdefault("stmts", []).append(assign(s, use(args[0]), ln))
+    cb["term"] = slice_call("is_empty", [cp(s)], {"l": e}, test_b)
+    cb["expanded"] = "slice::" + which
 
 
 # ------------------------------------------------------------------------------------------------ iterator pipelines
@@ -444,7 +675,9 @@ def expand_pipeline(bld, defs, bid, kind):
         raise Giveup("pipeline not recognised")
     stages, src = pl
     fn_ops = [s[2] for s in stages if s[2] is not None]
-    term_fn = t["args"][1] if kind in ("for_each", "position", "any", "all", "find", "find_map") else None
+    term_fn = t["args"][1] if kind in ("for_each", "position", "any", "all", "find", "find_map") else (t["args"][2] if kind == "fold" else None)
+    if sum(1 for s_ in stages if s_[0] == "flatten") > 1:
+        raise Giveup("nested flatten")
     if not fn_ops and term_fn is None:
         raise Giveup("plumbing only")
     for op in fn_ops + ([term_fn] if term_fn is not None else []):
@@ -468,7 +701,10 @@ def expand_pipeline(bld, defs, bid, kind):
         x_locals.append(l)
         return l
 
-    back = header
+    # with a flatten stage the stages after it run once per inner element: they go back to the inner loop
+    has_flatten = any(s_[0] == "flatten" for s_ in stages)
+    inner_header = bld.block([], None) if has_flatten else None
+    back = inner_header if has_flatten else header
     finish_stmts = []
     # terminal
     if kind == "collect":
@@ -511,6 +747,14 @@ def expand_pipeline(bld, defs, bid, kind):
             return emit_call(bld, defs, term_fn, [mv(xl)], {"l": unit}, ln, back)
         init_call = None
         finish_stmts = [assign(dst, {"k": "agg", "ak": "tuple", "ops": []}, ln)]
+    elif kind == "fold":
+        # acc = init; for x in it { acc = f(acc, x) }
+        x_last = new_x()
+        init_call = None
+        pre.append(assign(dst, use(t["args"][1]), ln))
+
+        def action(xl):
+            return emit_call(bld, defs, term_fn, [mv(dst["l"]), mv(xl)], dst, ln, back)
     elif kind in ("any", "all", "position", "find", "find_map"):
         x_last = new_x()
         init_call = None
@@ -576,6 +820,20 @@ def expand_pipeline(bld, defs, bid, kind):
             st, sw = discr_switch(bld, o, OPTION, {1: keep, 0: back}, ln)
             test = bld.block(st, sw)
             entry = emit_call(bld, defs, fop, [mv(xin)], {"l": o}, ln, test)
+        elif skind == "flatten":
+            # for y in xin { <stages after> }   -  the same two nested loops a `for` over the elements would give
+            it = bld.local("_")
+            iopt = bld.local("std::option::Option<_>")
+            ir = bld.local("&mut _")
+            elem_b = bld.block([assign(cur_x, use({"move": payload(iopt, OPTION, "Some", 1)}), ln)], goto(entry, ln))
+            st, sw = discr_switch(bld, iopt, OPTION, {0: header, 1: elem_b}, ln)
+            isel = bld.block(st, sw)
+            ih = blocks[inner_header]
+            ih["stmts"] = [assign(ir, {"k": "ref", "bk": "mut", "place": {"l": it}}, ln)]
+            ih["term"] = call_term("std::iter::Iterator::next", [mv(ir)], iopt, isel, ln)
+            ih["loop_header"] = True
+            entry = bld.block([], call_term("std::iter::IntoIterator::into_iter", [mv(xin)], {"l": it}, inner_header, ln))
+            back = header
         elif skind == "enumerate":
             i = bld.local("usize")
             pre.append(assign(i, use(konst("usize", 0)), ln))
@@ -742,14 +1000,22 @@ def expand_fn(rec, fns, known=None):
             vc = value_combinator(t)
             tk = terminal_kind(t)
             aw = async_helper(t, fns, known) if rec.get("coroutine") else None
-            if vc or tk or aw:
-                target = (b["id"], vc, tk, aw)
+            sp = slice_split(t)
+            bt = bool_then(t)
+            if bt:
+                sp = "bool:" + bt
+            if not (vc or tk or aw or sp):
+                op_ = option_plain(t, src, defs_of(src)) if ("option::Option" in (t.get("callee") or "") or "option::Option" in (t.get("resolved") or "")) else None
+                if op_:
+                    sp = "opt:" + op_
+            if vc or tk or aw or sp:
+                target = (b["id"], vc, tk, aw, sp)
                 break
         if target is None:
             break
         if work is None:
             work = copy.deepcopy(rec)
-        bid, vc, tk, aw = target
+        bid, vc, tk, aw, sp = target
         snapshot = (len(work["blocks"]), len(work["locals"]), copy.deepcopy(work["blocks"][bid]), len(work.get("vars", [])))
         touched = None
         try:
@@ -758,6 +1024,15 @@ def expand_fn(rec, fns, known=None):
             if aw:
                 expand_await(bld, defs, bid, aw)
                 done.append(("await " + aw[0], snapshot[2]["term"].get("ln")))
+            elif sp and sp.startswith("opt:"):
+                expand_option_plain(bld, defs, bid, sp[4:])
+                done.append(("Option::" + sp[4:], snapshot[2]["term"].get("ln")))
+            elif sp and sp.startswith("bool:"):
+                expand_bool_then(bld, defs, bid, sp[5:])
+                done.append(("bool::" + sp[5:], snapshot[2]["term"].get("ln")))
+            elif sp:
+                expand_slice_split(bld, bid, sp)
+                done.append(("slice::" + sp, snapshot[2]["term"].get("ln")))
             elif vc:
                 expand_value(bld, defs, bid, *vc)
                 done.append(("%s::%s" % vc, work["blocks"][bid].get("term", {}).get("ln")))
